@@ -80,7 +80,7 @@ Definition splice_side (left : bool) (tstrand : str) (merge numeric : bool) (exo
         | Ok l, Some (id0 :: _), Some s, Some e =>
             let (s', e') := if left then (s, s + 1) else (e - 1, e) in
             Ok (mkRow (r_id i) (r_seqid i) (r_source i) (r_ftype i) (Some s') (Some e') (r_score i) (r_strand i) (r_frame i)
-                      (dset IDk [ft ++ [USC] ++ id0] (r_attrs i)) (r_extra i) (r_bin i) :: l)
+                      (dset IDk [ft ++ [USC] ++ id0] (r_attrs i)) (r_extra i) (feature_bin (Some s') (Some e')) :: l)
         | Ok _, _, _, _ => Err EKey            (* exons without an ID attribute: KeyError *)
         | Err e, _, _, _ => Err e
         end) (Ok []) introns
